@@ -305,7 +305,7 @@ theorem coalesce_all_iff (P : Tree νr νb α → Prop) (es : EdgeL νr νb α) 
     obtain ⟨e', he', h'⟩ := coalesce_child_rev es e he
     rw [← h']; exact h e' he'
   · intro h e he
-    obtain ⟨e', he', h'⟩ := coalesce_child es e he
+    obtain ⟨e', he', h'⟩ := coalesce_child_u es e he
     rw [h']; exact h e' he'
 
 theorem mapE_all_iff (P : Tree νr νb α → Prop) (f : Tree νr νb α → Tree νr νb α)
